@@ -33,6 +33,8 @@ def run(ctx):
   rule_denom(ctx)
   rule_pm1(ctx)
   rule_hw(ctx)
+  rule_constructions(ctx)
+  ctx.expect("R-C05-CONSTRUCT", 4, "lattice, candidates, convergents, quadratic")
   ctx.expect("R-C05-SIZES", 2, "default list + override")
   ctx.expect("R-C05-CUT", 5, "two checks")
   ctx.expect("R-C05-DENOM", 2, "two denominators")
@@ -237,3 +239,94 @@ def rule_hw(ctx):
   calls = chk.calls("repo:rsa_util:CheckLowHammingWeight")
   okv = okv and bool(calls) and all(len(e.data["args"]) == 1 and not e.data["kwargs"] for e in calls)
   ctx.record(R, f.where, "weak without factors <=> minv <= threshold_weak; check uses the defaults", okv, "potentially_weak = minv <= threshold_weak" if okv else "verdict predicate / call changed")
+
+
+# ------------------------------------------------------------------ lattice / quadratic constructions (shape = documented method)
+def rule_constructions(ctx):
+  R = "R-C05-CONSTRUCT"
+  repo = ctx.repo
+  # ---- CheckFraction
+  f = repo.func("rsa_util", "CheckFraction")
+  w = sym.Walker(repo, f)
+  w.run()
+  n, d0 = P("param", "n"), P("param", "d0")
+  W = sym.mk("pow", Poly.const(2), sym.mk("fdiv", sym.mk("bitlen", n), Poly.const(2)))
+  X = sym.mk("pow", Poly.const(2), sym.mk("bitlen", d0))
+  u, v = sym.mk("fdiv", n, W), sym.mk("mod", n, W)
+  lat = [e for e in w.events if e.kind == "assign" and e.data["name"] == "lat"]
+  want = [[X, Poly.const(0), sym.mk("mod", u * d0, W)], [Poly.const(0), X, sym.mk("mod", v * d0, W)], [Poly.const(0), Poly.const(0), W]]
+  ok = bool(lat)
+  for e in lat:
+    val = e.data["value"]
+    if not (isinstance(val, Seq) and len(val.items) == 3 and all(isinstance(r, Seq) and len(r.items) == 3 for r in val.items)):
+      ok = False
+      continue
+    for r, wr in zip(val.items, want):
+      for a_, b_ in zip(r.items, wr):
+        if as_poly(a_) != b_:
+          ok = False
+  ctx.record(R, f.where, "lattice [[x,0,u*d mod w],[0,x,v*d mod w],[0,0,w]], w = 2^(bits//2), x = 2^bitlen(d)", ok, "n = u*w + v split at half the bit length" if ok else "lattice basis changed")
+  calls = [e for e in w.events if e.kind == "call" and e.data["name"] == "ext:gmpy2.gcd"]
+  okc = bool(calls)
+  for e in calls:
+    args = [as_poly(x) for x in e.data["args"]]
+    vec = e.state.env.get("v")
+    if vec is None:
+      okc = False
+      continue
+    vp = as_poly(vec)
+    cand = -sym.mk("idx", vp, Poly.const(1)) * W + sym.mk("idx", vp, Poly.const(0))
+    if not (n in args and any((x - cand).is_zero() for x in args)):
+      okc = False
+    va = vp.as_atom()
+    if va is None or va.kind != "idx" or "lll:reduce" not in repr(va.args[0]):
+      okc = False
+  exits = [kind for i in w.loop_info.values() for kind, _, _, _, _ in i["body_paths"] if kind == "break"]
+  ctx.record(R, f.where, "candidate gcd(-v[1]*w + v[0], n) for every reduced vector", okc and not exits, "all rows of the reduced basis are tried" if okc and not exits else "candidate construction / enumeration changed")
+  # ---- CheckContinuedFraction
+  f = repo.func("rsa_util", "CheckContinuedFraction")
+  w = sym.Walker(repo, f, unroll_const_loops=True)
+  w.run()
+  bound = P("param", "bound")
+  M = sym.mk("pow", Poly.const(2), sym.mk("bitlen", n))
+  cf = sym.mk("call", lit("ntheory_util:ContinuedFraction"), n, M)
+  loops = [i for i in w.loop_info.values() if isinstance(i["node"], ast.For) and as_poly(i["iter"]) == cf]
+  ok = len(loops) == 1
+  ctx.record(R, f.where, "convergents of n / 2^bitlen(n)", ok, "ContinuedFraction(n, 2**n.bit_length())" if ok else "continued fraction is not taken of n / 2^bitlen")
+  probs = []
+  if ok:
+    vis = loops[0]["visits"][0]
+    el = sym.mk("idx", cf, vis["k"])
+    vv = sym.mk("idx", el, Poly.const(2))
+    dm1 = sym.mk("call", lit("ntheory_util:DivmodRounded"), n * vv, W)
+    r_, c_ = sym.mk("idx", dm1, Poly.const(0)), sym.mk("idx", dm1, Poly.const(1))
+    dm2 = sym.mk("call", lit("ntheory_util:DivmodRounded"), r_, W)
+    a_, b_ = sym.mk("idx", dm2, Poly.const(0)), sym.mk("idx", dm2, Poly.const(1))
+    disc = b_ * b_ - a_ * c_ * 4
+    gcds = [e for e in w.events if e.kind == "call" and e.data["name"] == "ext:gmpy2.gcd"]
+    seen = set()
+    for e in gcds:
+      args = [as_poly(x) for x in e.data["args"]]
+      if n not in args:
+        probs.append("gcd is not taken with n")
+        continue
+      other = [x for x in args if x != n][0]
+      t = sym.mk("isqrt", disc)
+      if (other - (a_ * W * 2 + b_ + t)).is_zero():
+        seen.add("+")
+      elif (other - (a_ * W * 2 + b_ - t)).is_zero():
+        seen.add("-")
+      else:
+        probs.append("candidate is not 2*a*x + b +- sqrt(b^2 - 4ac) with n*v = a*x^2 + b*x + c")
+      if not any(f_[0] == "square" and (as_poly(f_[1]) - disc).is_zero() for f_ in e.facts):
+        probs.append("no perfect-square test on the discriminant b^2 - 4ac")
+    if seen != {"+", "-"}:
+      probs.append("both roots +-t must be tried (found %s)" % sorted(seen))
+    # large coefficient alarm uses the quotient of the same convergent
+    alarms = [e for e in w.events if e.kind == "return" and isinstance(e.data["value"], Seq) and isinstance(e.data["value"].items[1], Seq) and not e.data["value"].items[1].items
+              and isinstance(e.data["value"].items[0], Const) and e.data["value"].items[0].v is False]
+    q = sym.mk("idx", el, Poly.const(0))
+    if not (alarms and all(any(f_[0] == "cmp" and f_[1] == "GtE" and as_poly(f_[2]) == q and as_poly(f_[3]) == bound for f_ in e.facts) for e in alarms)):
+      probs.append("large-coefficient alarm is not `quot >= bound` on the convergent's partial quotient")
+  ctx.record(R, f.where, "quadratic n*v = a x^2 + b x + c, roots via (2ax + b)^2 - (b^2 - 4ac) = 4a*n*v", not probs, "; ".join(sorted(set(probs))) or
+             "both candidates 2ax + b +- t with t^2 = b^2 - 4ac; (2ax+b+t)(2ax+b-t) = 4a*n*v")
